@@ -428,3 +428,30 @@ Proof.
     destruct Hk; cbn [t_witness t_debug t_uses new_thread] in *; try discriminate.
     injection Hw as <-. assumption.
 Qed.
+
+(* ---- the source-level event sequences extracted by tools/genconc are the modelled shapes ---- *)
+Require Import Gen.ConcSrc.
+
+Lemma collapse_repeat_other k : collapse (repeat GOther (S k)) = [GOther].
+Proof. induction k as [|k IH]; [reflexivity|]. change (repeat GOther (S (S k))) with (GOther :: GOther :: repeat GOther k). cbn [collapse]. exact IH. Qed.
+
+Lemma map_ev_repeat_use k : map ev_of (repeat IUse k) = repeat GOther k.
+Proof. induction k as [|k IH]; [reflexivity|]. cbn [repeat map ev_of]. rewrite IH. reflexivity. Qed.
+
+Lemma source_shape :
+  (forall k, go_Wrap = shape (prog_request (S k))) /\
+  (forall v, go_Reconfigure = GOther :: shape (prog_reconfigure v)) /\
+  (forall b, go_SetDebug = shape (prog_setdebug b)) /\
+  go_Config = shape prog_config /\
+  go_other_methods_touching_state = 0%nat.
+Proof.
+  split; [|split; [|split; [|split]]].
+  - intros k. unfold shape, prog_request. rewrite map_app, map_ev_repeat_use. cbn [map ev_of app].
+    assert (H : forall l, collapse (GRLock :: GReadIcfg :: GReadDebug :: GRUnlock :: l)
+                       = GRLock :: GReadIcfg :: GReadDebug :: GRUnlock :: collapse l) by reflexivity.
+    rewrite H, collapse_repeat_other. reflexivity.
+  - intros v. reflexivity.
+  - intros b. reflexivity.
+  - reflexivity.
+  - reflexivity.
+Qed.
